@@ -11,6 +11,7 @@ parameters become sites at the call sites (bottom-up over the call graph).
 import os
 import sys
 from collections import defaultdict
+import re as _re
 
 from .kit import norm
 
@@ -370,9 +371,20 @@ class FnAnalysis:
             c = op["const"]
             if "int" in c:
                 return V_const(c["int"])
+            if c.get("ty") in ("u64", "usize") and self.const_generic():
+                # the value of the function's const generic parameter (`fn le_bytes<const N: usize>`): one symbol
+                if "GN" not in self.atom_meta:
+                    self.atom_meta["GN"] = {"lo": 0, "hi": 2 ** 32, "taint": False, "desc": "N"}
+                return self.int_of_atom("GN")
             return None
         place = op.get("copy") or op.get("move")
         return self.refresh(st, self.read_place(st, place, tag))
+
+    def const_generic(self):
+        """does the function have a const generic array length in its signature (`-> [u8; N]`)?"""
+        if not hasattr(self, "_cg"):
+            self._cg = any(_re.search(r"\[u8; [A-Z]\w*\]", (l.get("ty") or "")) for l in self.locals[:self.nargs + 1])
+        return self._cg
 
     def refresh(self, st, v):
         """re-tighten an int value's interval from the current atom bounds"""
@@ -590,7 +602,6 @@ def _array_len(cls):
 # transfer functions
 
 NEG = {"Lt": "Ge", "Le": "Gt", "Gt": "Le", "Ge": "Lt", "Eq": "Ne", "Ne": "Eq"}
-import re as _re
 
 _ARR_IN_TY = _re.compile(r"\[u8; (\d+)\]")
 
@@ -678,7 +689,7 @@ class FnRun(FnAnalysis):
     # ---------------------------------------------------------------- sites
     def origin(self, st, sid, depth=0):
         if sid.startswith("P"):
-            return "arg%s" % sid[1:]
+            return "arg%s" % sid[1:] if int(sid[1:]) < 100 else "arg1.%d" % (int(sid[1:]) - 100)
         if sid.startswith("F:"):
             return self.loc_desc(sid[2:])
         return self.sid_origin.get(sid, "local")
@@ -732,6 +743,15 @@ class FnRun(FnAnalysis):
         req = None
         if not ok and sid.startswith("P") and need is not None and need[0] == "int" and need[1] is not None and need[1].is_const():
             req = (int(sid[1:]), need[1].c + (1 if strict else 0))
+        if not ok and req is None and sid.startswith("P") and need is not None and need[0] == "int" and need[1] is not None and need[1] == Lin.atom("GN") and not strict:
+            req = (int(sid[1:]), "GN")      # as many bytes as the const generic parameter says: known at each call site
+        if not ok and req is None and sid.startswith("P") and self.name in self.prog.direct_closures and need is not None and need[0] == "int" and need[1] is not None \
+                and need[1].atoms() and all(_re.match(r"m_\d+$", a_) for a_ in need[1].atoms()):
+            # `buf[row..row + 2]` in a local closure all of whose calls are seen: the need is a function of its
+            # parameters, whose intervals are those of the call sites; the largest one moves to the enclosing function
+            hi_ = self.lin_bounds(st, need[1])[1]
+            if hi_ < 2 ** 32:
+                req = (int(sid[1:]), int(hi_) + (1 if strict else 0))
         if not ok and req is None and not os.environ.get("C06_NO_SUBREQ") and need is not None and need[0] == "int" and need[1] is not None and need[1].is_const():
             # a sub-slice `param[c..]` of a parameter: the need moves to the parameter, c bytes further
             ex = st.sl.get(sid, (0, frozenset(), None))[2]
@@ -865,6 +885,9 @@ class FnRun(FnAnalysis):
                     return ("opt", "some", ops[0])
             if rv["ak"] == "Array":
                 return ("array", len(ops))
+            if rv["ak"] == "Closure" and rv.get("closure") and norm(rv["closure"]) in self.prog.direct_closures:
+                # a closure value is the tuple of what it captures
+                return ("tuple", ops)
             return None
         if k == "Repeat":
             return ("array", rv.get("n"))
@@ -1008,7 +1031,12 @@ class FnRun(FnAnalysis):
         elif last in ("try_into", "try_from") and len(args) == 1:
             v = args[0]
             m = _ARR_IN_TY.search(dty or "")
-            if v and v[0] in ("slice", "ref") and m:
+            if v and v[0] in ("slice", "ref") and not m and self.const_generic() and _re.search(r"\[u8; [A-Z]\w*\]", dty or ""):
+                sid = self.slice_arg(st, v)
+                ex_ = st.sl.get(sid, (0, frozenset(), None))[2] if sid else None
+                exx_ = self.expand(st, ex_) if ex_ is not None else None
+                res = ("opt", "write_string", None) if (exx_ is not None and exx_ == Lin.atom("GN")) else ("opt", "some", None)
+            elif v and v[0] in ("slice", "ref") and m:
                 sid = self.slice_arg(st, v)
                 res = ("opt", "try_into_slice", ("slice", sid), int(m.group(1)))
             elif v and v[0] == "int":
@@ -1097,6 +1125,33 @@ class FnRun(FnAnalysis):
         else:
             handled = False
 
+        if self.collect and decl.startswith("core::iter::traits::iterator::Iterator::") and len(t["args"]) == 2 and self.prog.adaptor_closures:
+            cty_ = _re.sub(r"^&(mut )?", "", self.arg_local_ty(t["args"][1]))
+            cn_ = self.prog.adaptor_closures.get(cty_)
+            if cn_:
+                rg_ = args[0]
+                if rg_ and rg_[0] == "ref":
+                    rg_ = st.val.get(rg_[1])
+                lo_, hi_ = -INF, INF
+                if rg_ and rg_[0] == "range" and rg_[1] == "Range" and rg_[2] and rg_[3] and rg_[2][0] == "int" and rg_[3][0] == "int":
+                    s_, e_ = self.refresh(st, rg_[2]), self.refresh(st, rg_[3])
+                    lo_, hi_ = s_[2], (e_[3] - 1 if e_[3] < INF else INF)
+                obs = self.prog.arg_obs.setdefault(cn_, {})
+                cur_ = obs.get(2)
+                obs[2] = (lo_, hi_) if cur_ is None else (min(cur_[0], lo_), max(cur_[1], hi_))
+        if not handled and name in self.prog.direct_closures and decl.startswith("core::ops::function::Fn"):
+            # `f(a, b)` on a local closure: Fn::call(&f, (a, b)).  Re-index the arguments the way the closure body
+            # numbers its locals (_1 the captures, _2.. the parameters); the captures are pseudo-parameters 100+k
+            env = args[0] if args else None
+            if env and env[0] == "ref":
+                env = st.val.get(env[1])
+            tup = args[1] if len(args) > 1 else None
+            n_par = self.prog.runs[name].nargs - 1
+            elems = list(tup[1]) if (tup and tup[0] == "tuple" and len(tup[1]) == n_par) else [None] * n_par
+            args = [None] + elems
+            clo_caps = list(env[1]) if (env and env[0] == "tuple") else []
+        else:
+            clo_caps = None
         if not handled:
             callee_fn = self.prog.runs.get(name)
             if self.collect and name in self.prog.eligible:
@@ -1141,8 +1196,17 @@ class FnRun(FnAnalysis):
             if callee_fn is not None and callee_fn is not self:
                 # constant length requirements of the helper
                 for (pi, k) in sorted(self.prog.requires.get(name, {}).items()):
-                    if pi - 1 < len(args):
-                        sid = self.slice_arg(st, args[pi - 1])
+                    if k == "GN":
+                        mk = _ARR_IN_TY.search(dty or "")
+                        if not mk:
+                            continue
+                        k = int(mk.group(1))
+                    if clo_caps is not None and pi >= 100:
+                        av_ = clo_caps[pi - 100] if pi - 100 < len(clo_caps) else None
+                    else:
+                        av_ = args[pi - 1] if pi - 1 < len(args) else None
+                    if pi - 1 < len(args) or (clo_caps is not None and pi >= 100):
+                        sid = self.slice_arg(st, av_)
                         if sid is None:
                             self.add_site((bi, "T", pi), "R-INDEX", "call", span, False, "%s needs at least %d bytes in argument %d; the argument is not a tracked buffer" % (name, k, pi), "call %s needs %d of unknown" % (name, k))
                         else:
@@ -1513,6 +1577,27 @@ class FnRun(FnAnalysis):
                         lo, hi = INT_BOUNDS[c]
                 self.atom_meta[a] = {"lo": lo, "hi": hi, "taint": True, "desc": "param%d" % i}
                 st.val["_%d" % i] = self.int_of_atom(a)
+            elif c.startswith("&") and c[1:] in INT_BOUNDS and c[1:] != "bool" and self.name in self.prog.adaptor_closures.values():
+                # the item of an integer range, handed to the closure by reference (`.find(|i| ..)`)
+                pr = self.prog.param_ranges.get(self.name, {}).get(i)
+                if pr and not os.environ.get("C06_NO_PARAMRANGE"):
+                    lo, hi = INT_BOUNDS[c[1:]]
+                    lo, hi = max(lo, pr[0]), min(hi, pr[1])
+                    if lo <= hi:
+                        a = "m_%d*" % i
+                        self.atom_meta[a] = {"lo": lo, "hi": hi, "taint": True, "desc": "param%d" % i}
+                        st.val["_%d*" % i] = self.int_of_atom(a)
+        for k_, cc_ in enumerate(self.prog.direct_closures.get(self.name, ())):
+            # byte slices the closure captures, by reference (`&&[u8]`) or by value
+            inner_ = cc_[1:] if cc_.startswith("&&") else cc_
+            if inner_ in ("&[u8]", "&mut [u8]") or (cc_.startswith("&&") and False):
+                sid = "P%d" % (100 + k_)
+                st.sl[sid] = (0, frozenset(), None)
+                if cc_.startswith("&&"):
+                    st.val["_1*.%d" % k_] = ("ref", "_cap%d" % k_)
+                    st.val["_cap%d" % k_] = ("slice", sid)
+                else:
+                    st.val["_1*.%d" % k_] = ("slice", sid)
         if not os.environ.get("C06_NO_PARAMRANGE"):
             for (i_, suffix_), minc_ in sorted(self.prog.param_fields.get(self.name, {}).items()):
                 st.sl["F:_%d*%s" % (i_, suffix_)] = (minc_, frozenset(), None)
@@ -1850,6 +1935,11 @@ def _int_class_in(ty):
 # whole program
 
 
+# iterator adaptors that call their closure with the items of the receiver: by value / by reference
+_ADAPTOR_ITEM = {"map": "val", "for_each": "val", "any": "val", "all": "val", "position": "val", "find_map": "val", "filter_map": "val", "flat_map": "val",
+                 "find": "ref", "filter": "ref", "take_while": "ref", "skip_while": "ref"}
+
+
 class Program:
     def __init__(self, facts):
         self.facts = facts
@@ -1864,11 +1954,121 @@ class Program:
         self.param_fields = {}     # private fn -> {(param index, field path): minimum length at every call site}
         self.param_rel = {}        # private fn -> relations between its parameters that hold at every call site
         self.eligible = self._private_fns(facts)
+        self.direct_closures = {} if os.environ.get("C06_NO_DIRECTCLOSURE") else self._direct_closures(facts)
+        self.eligible |= set(self.direct_closures)
+        self.adaptor_closures = {} if os.environ.get("C06_NO_DIRECTCLOSURE") else self._adaptor_closures(facts)
         for name, ms in facts.mir.items():
             for m in ms:
                 if "::tests::" in name or name.startswith("tests::") or "::test::" in name:
                     continue
                 self.runs[name] = FnRun(self, name, m)
+
+    @staticmethod
+    def _adaptor_closures(facts):
+        """{closure type: closure} for the closures handed to exactly one iterator adaptor directly on an integer range
+        (`(4..16).find(|i| ..)`): the closure value is used nowhere else, so its item parameter only ever holds items of
+        that range."""
+        clo = {}
+        for name, ms in facts.mir.items():
+            if _re.search(r"\{closure#\d+\}$", name) and len(ms) == 1 and ms[0]["arg_count"] == 2:
+                ty = _re.sub(r"^&(mut )?", "", ms[0]["locals"][1]["ty"])
+                if ty.startswith("{closure@"):
+                    clo[ty] = name
+        uses = defaultdict(list)
+        for name, ms in facts.mir.items():
+            for m in ms:
+                tys = [_re.sub(r"^&(mut )?", "", l["ty"]) for l in m["locals"]]
+                if not any(t_ in clo for t_ in tys):
+                    continue
+                if tys[0] in clo:
+                    uses[tys[0]].append("returned")
+                for b in m["blocks"]:
+                    for st_ in b["stmts"]:
+                        rv = st_.get("rv") or {}
+                        ops_ = list(rv.get("ops", [])) if rv.get("k") == "Aggregate" and rv.get("ak") != "Closure" else []
+                        if rv.get("k") in ("Use", "Cast") and rv.get("a"):
+                            ops_.append(rv["a"])
+                        if rv.get("k") in ("Ref", "RawPtr") and rv.get("place") and not rv["place"].get("p") and tys[rv["place"]["l"]] in clo:
+                            uses[tys[rv["place"]["l"]]].append("borrowed")
+                        for o in ops_:
+                            p_ = o.get("copy") or o.get("move")
+                            if p_ and not p_.get("p") and tys[p_["l"]] in clo:
+                                uses[tys[p_["l"]]].append("moved")
+                    t = b.get("term") or {}
+                    if t.get("k") == "Call":
+                        dn = norm(t.get("callee")) or ""
+                        for j, o in enumerate(t.get("args") or []):
+                            p_ = o.get("copy") or o.get("move")
+                            if p_ and not p_.get("p") and tys[p_["l"]] in clo:
+                                a0 = (t["args"][0].get("copy") or t["args"][0].get("move")) if t.get("args") else None
+                                r0 = tys[a0["l"]] if a0 and not a0.get("p") else ""
+                                mth = dn.rsplit("::", 1)[-1]
+                                if j == 1 and dn.startswith("core::iter::traits::iterator::Iterator::") and mth in _ADAPTOR_ITEM and _re.match(r"core::ops::range::Range<[ui](8|16|32|64|size)>$", r0):
+                                    uses[tys[p_["l"]]].append(("adaptor", mth))
+                                else:
+                                    uses[tys[p_["l"]]].append("passed")
+        return {ty: clo[ty] for ty, u in uses.items() if len(u) == 1 and isinstance(u[0], tuple)}
+
+    @staticmethod
+    def _direct_closures(facts):
+        """{closure: classes of its captures} for the local closures that are only ever called directly (`let f = |..| ..;
+        f(a, b)`): the value never appears as an argument of anything but its own Fn::call, is stored in no aggregate and
+        is not returned.  Every call site of such a closure is analysed, so the join of the argument intervals bounds its
+        parameters, and what it needs of a captured buffer can be asked of the enclosing function at the call."""
+        clo = {}
+        for name, ms in facts.mir.items():
+            if _re.search(r"\{closure#\d+\}$", name) and len(ms) == 1 and len(ms[0]["locals"]) > 1:
+                ty = ms[0]["locals"][1]["ty"]
+                ty = _re.sub(r"^&(mut )?", "", ty)
+                if ty.startswith("{closure@"):
+                    clo[name] = ty
+        if not clo:
+            return {}
+        calls = {n: 0 for n in clo}
+        bad = set()
+        caps = {}
+        for name, ms in facts.mir.items():
+            for m in ms:
+                tys = [l["ty"] for l in m["locals"]]
+                hit = [n for n, ty in clo.items() if any(ty in t_ for t_ in tys)]
+                if not hit:
+                    continue
+                for n in hit:
+                    if clo[n] in tys[0]:
+                        bad.add(n)
+                for b in m["blocks"]:
+                    for st_ in b["stmts"]:
+                        rv = st_.get("rv") or {}
+                        if rv.get("k") == "Aggregate":
+                            if rv.get("ak") == "Closure" and norm(rv.get("closure")) in clo:
+                                cn = norm(rv["closure"])
+                                cl_ = []
+                                for o in rv["ops"]:
+                                    p_ = o.get("copy") or o.get("move")
+                                    cl_.append(m["locals"][p_["l"]]["c"] if p_ and not p_.get("p") else "?")
+                                if cn in caps:
+                                    bad.add(cn)
+                                caps[cn] = tuple(cl_)
+                            for o in rv.get("ops", []):
+                                p_ = o.get("copy") or o.get("move")
+                                if p_:
+                                    for n in hit:
+                                        if clo[n] in tys[p_["l"]] and not (rv.get("ak") == "Closure" and False):
+                                            bad.add(n)
+                    t = b.get("term") or {}
+                    if t.get("k") == "Call":
+                        res = norm(t.get("resolved") or "") or ""
+                        for j, o in enumerate(t.get("args") or []):
+                            p_ = o.get("copy") or o.get("move")
+                            if not p_:
+                                continue
+                            for n in hit:
+                                if clo[n] in tys[p_["l"]]:
+                                    if res == n and j == 0 and (norm(t.get("callee")) or "").startswith("core::ops::function::Fn"):
+                                        calls[n] += 1
+                                    else:
+                                        bad.add(n)
+        return {n: caps[n] for n in clo if n not in bad and calls[n] > 0 and n in caps}
 
     @staticmethod
     def _private_fns(facts):
